@@ -179,8 +179,31 @@ def finiteRepr (repr : String) : Bool := !(repr == "inf" || repr == "-inf" || re
 def MAX_INT : Int := 2147483647
 def MIN_INT : Int := -2147483648
 
+mutual
+/-- `default_scalar.parse_literal` (fix C11-1): the transparent conversion of a literal — scalar literals keep their
+    `value` (source text for numbers), enum literals their name, list / object literals become lists / dicts -/
+def untypedLit : Lit → J
+  | .null => .null
+  | .int v _ => .str v
+  | .float v _ => .str v
+  | .str s => .str s
+  | .bool b => .bool b
+  | .enum v => .str v
+  | .list l => .arr (untypedList l)
+  | .obj fs => .obj (untypedFields fs)
+def untypedList : List Lit → List J
+  | [] => []
+  | x :: xs => untypedLit x :: untypedList xs
+def untypedFields : List (String × Lit) → List (String × J)
+  | [] => []
+  | (k, x) :: xs => (k, untypedLit x) :: untypedFields xs
+end
+
 /-- `parse_literal` of the five specified scalars and of `default_scalar` -/
 def scalarLiteral (tname : String) (custom : Bool) : Lit → Option J
+  | .enum v => if custom then some (.str v) else none
+  | .list l => if custom then some (.arr (untypedList l)) else none
+  | .obj fs => if custom then some (.obj (untypedFields fs)) else none
   | .int v f =>
     if custom then some (.str v)
     else if tname == "Int" then
